@@ -341,7 +341,17 @@ def gen_c10(rng: random.Random, stalls: bool = False) -> dict:
         # its high-water mark and pauses the protocol - keepalive pings and the pong deadline go on regardless
         t_dead = K * (1.0 + rng.random() * 3)
         events[:] = [e for e in events if not (e.get("do") == "dev" and e["at"].get("delay", 0) > t_dead)]
-        events.append({"at": {"on": "state", "match": {"new": "CONNECTED"}, "delay": t_dead}, "do": "fault", "kind": "tx_block", "d": 3000.0})
+        if rng.random() < 0.5:
+            events.append({"at": {"on": "state", "match": {"new": "CONNECTED"}, "delay": t_dead}, "do": "fault", "kind": "tx_block", "d": 3000.0})
+        else:
+            # ... or its TCP stack still drains the socket now and then while the API task behind it hangs (no message, no
+            # pong): the write buffer fills and empties - a drained buffer is no sign of life
+            device.setdefault("replies", {})["PingRequest"] = ["silent"]
+            d_blk = K * pick(rng, [0.6, 1.2, 2.0])
+            tb = t_dead
+            while tb < t_dead + 16 * K:
+                events.append({"at": {"on": "state", "match": {"new": "CONNECTED"}, "delay": tb}, "do": "fault", "kind": "tx_block", "d": d_blk})
+                tb += d_blk + K * pick(rng, [0.05, 0.3])
         big = [{"do": "send", "msgs": [["CameraImageRequest", {"single": True}], ["VoiceAssistantAudio", {"data": {"gen": [40000, 7]}}]]}, {"do": "sleep", "d": K * 0.4}]
         actors.append({"id": "flood", "at": {"on": "state", "match": {"new": "CONNECTED"}, "delay": t_dead + 0.01}, "steps": big * 12})
         end = max(end, t_dead + 14 * K + 5.0)
